@@ -38,7 +38,10 @@ def intervals():
 
 
 def accounts():
-    return st.one_of(st.sampled_from([0, 1, H - 1, H - 2]), st.integers(0, H - 1))
+    # edges, numbers that coincide with constants used at other levels of the same paths (purposes, coin types,
+    # the BIP85 root), small numbers, uniform
+    return st.one_of(st.sampled_from([0, 1, H - 1, H - 2]), st.sampled_from([44, 49, 84, 2, 83696968]),
+                     st.integers(0, 100), st.integers(0, H - 1))
 
 
 def gen_wallet(tier):
@@ -220,7 +223,7 @@ def classes_wallet(case):
     a, iv = case["calls"][0]
     rows = max(0, iv[1] - iv[0])
     return ["src:" + case["source"] + (":%d" % case.get("xver", 44) if case["source"] == "xprv" else ""), "test" if case["testnet"] else "main", "rows=%d" % rows, "calls=%d" % len(case["calls"]),
-            "account-edge" if a in (0, 1, H - 1, H - 2) else "account-uniform", "start-edge" if iv[0] in (0, 1, H - 2, H - 4) else "start-uniform"]
+            "account-edge" if a in (0, 1, H - 1, H - 2) else "account=purpose-number" if a in (44, 49, 84) else "account-uniform", "start-edge" if iv[0] in (0, 1, H - 2, H - 4) else "start-uniform"]
 
 
 def key_wallet(case):
